@@ -1600,6 +1600,11 @@ def const_value(m, e, depth=0):
         return -v if isinstance(e.op, ast.USub) else v
     if isinstance(e, ast.Call) and isinstance(e.func, ast.Name) and e.func.id in ("int", "float") and len(e.args) == 1 and not e.keywords:
         return {"int": int, "float": float}[e.func.id](const_value(m, e.args[0], depth + 1))
+    if isinstance(e, ast.Call) and (dotted(e.func) or "").split(".")[-1] == "field" and not e.args and len(e.keywords) >= 1 \
+            and m.imports.get((dotted(e.func) or "").split(".")[0], "").split(".")[0] == "dataclasses":
+        kw = {k.arg: k.value for k in e.keywords}
+        if "default" in kw and not ({"default_factory", "init"} & set(kw)):
+            return const_value(m, kw["default"], depth + 1)      # dataclasses.field(default=X, ...): the field default is X
     raise LookupError(f"not a constant expression: {ast.unparse(e)[:60]}")
 
 
